@@ -56,7 +56,7 @@ def lift1(f, a):
     if not isinstance(a, Vec):
         return f(a)
     r = Vec((CTX.per_class(i, f, x) for i, x in enumerate(a.v)), fresh=a.fresh, aligned=a.aligned)
-    r.exact = a.exact
+    r.exact, r.labels = a.exact, a.labels
     return r
 
 
@@ -81,6 +81,9 @@ def lift2(f, a, b):
             fresh=(isinstance(a, Vec) and a.fresh) or (isinstance(b, Vec) and b.fresh),
             aligned=(isinstance(a, Vec) and a.aligned) or (isinstance(b, Vec) and b.aligned))
     r.exact = all(x.exact for x in (a, b) if isinstance(x, Vec))
+    labs = [x.labels for x in (a, b) if isinstance(x, Vec) and x.labels is not None and (x.aligned or x.fresh)]
+    if labs and all(l == labs[0] for l in labs) and len(labs[0]) == len(r.v):
+        r.labels = labs[0]
     return r
 
 
